@@ -333,6 +333,21 @@ def _compare(ad, fd, M, tau2=TAU2):
             "fwd_vs_rev": fwd / tol1 if tol1 > 0 else 0.0, "asym": asym / tol2}
 
 
+def _isotropic_stress(ads, c, M):
+    """The open tangent finding needs a non-zero deviatoric stress at a repeated pair; where the stress at the centre is purely
+    volumetric (undeformed state, rigid rotation, dilation, C_e proportional to the identity) the library's tangent is
+    right on the unchanged tree, so a mismatch there is an ordinary violation (a seeded change that only broke the tangent
+    at such states was masked by the known class before this test was added)."""
+    try:
+        P = onp.asarray(ads["single"][1], dtype=float).reshape(3, 3)
+        F = onp.eye(3) + onp.asarray(c.H, dtype=float).reshape(3, 3)
+        tau = P @ F.T
+        dev = tau - onp.trace(tau) / 3.0 * onp.eye(3)
+        return bool(onp.linalg.norm(dev) <= 1e-8 * M)
+    except Exception:  # noqa
+        return False
+
+
 def _libkey(e):
     """Finding signature of an exception raised by library code; harness bugs are re-raised (HARNESS-ERROR)."""
     from mc.runner import exception_key
@@ -500,7 +515,7 @@ def _run_cases(rec, mdl, prog, name, cases, s_pad, dt, p, M, eigen_based, seed):
                         # eigenvalues) makes even the FIRST derivative wrong when the computed eigenvalues differ by rounding
                         key, outcome = POW_KEY, "pow-derivative-at-nearly-repeated-principal-values"
                         rec.branch("protocol:pow_symm derivative wrong as single call at (nearly) repeated principal values")
-                    elif order == 2 and not okS and first_ok_single and repeated_centre and not nan:
+                    elif order == 2 and not okS and first_ok_single and repeated_centre and not nan and not _isotropic_stress(ads, c, M):
                         key, outcome = TANGENT_KEY, "tangent-at-repeated-principal-values"
                         rec.branch("protocol:second derivative wrong as single call at repeated principal values")
                     elif mode == "batched" and okS:
